@@ -326,6 +326,13 @@ func (c WTVarIntSliceWrapper) Read(data []byte, ptr unsafe.Pointer, wt plenccore
 		// Ensure the GC knows the type of this slice.
 		h.Data = unsafe_NewArray(c.EltType, int(count))
 		h.Cap = int(count)
+	} else {
+		// We're going to re-use the backing array. The elements may be
+		// pointers, which are decoded into rather than replaced, so start
+		// from zeros
+		for i := 0; i < count; i++ {
+			typedmemclr(c.EltType, unsafe.Add(h.Data, i*int(c.EltSize)))
+		}
 	}
 	h.Len = count
 
